@@ -2093,7 +2093,11 @@ def replay(ck, data):
         print("lock-step agrees on the current tree")
         return 0
     R = run_problem(ck, hbin, p)
-    fails, obs = path_is_real(p, R)
+    fails, obs = path_is_real(p.env_at(None), R)
+    for k, Rk in R.get("calls", []):
+        fk, _ = path_is_real(p.env_at(k), Rk)
+        print("call %d (%s): status %s solutions %s" % (k, p.calls[k], Rk.get("status"), Rk.get("after")))
+        fails += [(f[0], "call %d (%s): %s" % (k, p.calls[k], f[1])) for f in fk]
     print("planner %s status %s solutions %s queries %s" % (p.planner, R.get("status"), R.get("after"), R.get("nq")))
     for f in fails:
         print("PROPERTY FAILS [%s]: %s" % (f[0], f[1]))
@@ -2107,7 +2111,7 @@ MANIFEST = {
     "engine": "planners",
     "category": "proof",
     "design_ref": "DESIGN.md 2.1",
-    "text": "Lean 4 theorems (35): (L0) the reporting layer shared by all planners (status truth table, PlannerInputStates "
+    "text": "Lean 4 theorems (44): (L0) the reporting layer shared by all planners (status truth table, PlannerInputStates "
             "nextStart/nextGoal filter and counters, PathGeometric::check, addSolutionPath bookkeeping); (L1) planners as oracle "
             "machines (run_congr, unasked_flip, undisciplined_refutable: unqueried stretches cannot be vouched for; "
             "checked_points_valid / discipline_sound: queried-valid points are valid and dense valid queries bound every invalid "
@@ -2120,7 +2124,12 @@ MANIFEST = {
             "false, which the lock-step enforces; lazyprm_relabel_fuel_sufficient + lazyprm_unite_selfcheck_redundant + "
             "lazyprm_relabel_selfcheck_redundant: the as-coded fuel of the breadth-first relabelling always suffices, so of the two "
             "self-checks only the one after a vertex removal is still a hypothesis); approx_bookkeeping_real for the approximate-solution bookkeeping shared by the "
-            "tree planners; the three models are tied to the C++ by bit-exact "
+            "tree planners; (L2h, round 10) histories of ONE RRT object and problem definition (Model/RRTHistory.lean: solve on a kept tree, clear, "
+            "addStartState, setRange, setThreshold, setIntermediateStates, setup, clearSolutionPaths): rrt_history_step / rrt_history_real - "
+            "for EVERY finite sequence of calls every solve reports truthfully and every solution the problem definition holds is real, "
+            "rrt_history_first_call, hasApproximate_iff_all (the flag of a problem definition with several solutions); (L0g) GoalStates "
+            "(goalstates_sampling, goalstates_distance, rrtconnect_goalstates_real, lazyprm_goalstates_real); rrt_unfiltered_goal_draw_fails "
+            "(finding F310: a direct sampleGoal bypasses the bounds filter); the three models are tied to the C++ by bit-exact "
             "lock-step replay of recorded sampler/goal draws (trees, path, status, flags). Trace conformance: all 41 shipped "
             "geometric planners, LightningRetrieveRepair over a database of unvalidated experiences, and 4 multilevel planners "
             "(R^3 over R^2; SE(2) over R^2 aborts inside solve on the unchanged tree and is counted as a crash) are run on random and adversarial box environments and every reported "
@@ -2130,7 +2139,11 @@ MANIFEST = {
             "spaces for the planners that support them, a direction-sensitive motion validator (a motion may be valid one way and "
             "invalid the other: no reported edge may be blocked in the direction the path travels it, enforced for the planners "
             "whose code validates the travelled direction, counted for the others), and the constructive unobserved-gap attack "
-            "on every solved run.",
+            "on every solved run. Round 10 input classes: object histories of RRT in lock-step with the history model and judged call by call; "
+            "resume histories for EVERY planner (sealed / opened doorway, solve-exact-resume, clear in between: every call's report is judged, "
+            "a resumed call's status is held against the solutions that call registered); GoalStates goals with invalid / out-of-bounds / duplicate "
+            "states for every planner and in the three lock-steps; a collision-only validity checker (bounds-blind) with corner goals and "
+            "ranges comparable to the space.",
     "note": "Planners other than RRT, RRTConnect and LazyPRM are covered only on the runs explored (sampled seeds, environments, budgets); the theorems "
             "reduce their soundness to a per-run discipline which is observed, not proved. Trusted: Lean kernel, the three "
             "standard axioms, the hand-written RRT / RRTConnect models outside the lock-step runs, the harness's recording wrappers, the "
